@@ -137,12 +137,16 @@ Fixpoint resolve_constants_lr (its : list litem) (consts : envt) (acc : list lit
 (* ---- resolve_labels ----------------------------------------------------------------------------------- *)
 (* the model KEEPS the label items in the list (ghost markers of size 0): every later pass treats them as
    items of size 0 that it passes through, so positions are those of the Python list without them *)
-Fixpoint resolve_labels (its : list litem) (pos : Z) (labels : envt) : outcome envt :=
+Fixpoint resolve_labels_from (its : list litem) (pos : Z) (labels : envt) (defined : list string) : outcome envt :=
   match its with
   | [] => Done labels
-  | (_, ILabel name) :: r => resolve_labels r pos (dict_set name pos labels)
-  | (_, it) :: r => n <<- size_o it ;;; resolve_labels r (pos + n) labels
+  | (l, ILabel name) :: r =>
+      if mem_str name defined then Fail (PAsm l)          (* duplicate label *)
+      else resolve_labels_from r pos (dict_set name pos labels) (name :: defined)
+  | (_, it) :: r => n <<- size_o it ;;; resolve_labels_from r (pos + n) labels defined
   end.
+Definition resolve_labels (its : list litem) (pos : Z) (labels : envt) : outcome envt :=
+  resolve_labels_from its pos labels [].
 
 (* ---- resolve_register_aliases ------------------------------------------------------------------------- *)
 Definition REGS : list string := ["rd"; "rs1"; "rs2"; "rd_rs1"]%string.
@@ -483,17 +487,17 @@ Fixpoint resolve_instructions (its : list litem) (acc : list litem) : outcome (l
 Definition resolve_strings (its : list litem) : list litem :=
   map (fun li => match li with (l, IString bs) => (l, IBlob bs) | _ => li end) its.
 
-Fixpoint seq_bytes (fmtc : string) (vals : list string) : outcome (list Z) :=
+Fixpoint seq_bytes (l : line) (fmtc : string) (vals : list string) : outcome (list Z) :=
   match vals with
   | [] => Done []
   | v :: r =>
       match py_int_lit v with
-      | None => Fail (PRaw ValueError)
+      | None => Fail (PAsm l)
       | Some z =>
           let f := String.append "<" (if z <? 0 then lower fmtc else fmtc) in
           match struct_pack f z with
-          | Some (Ok bs) => rest <<- seq_bytes fmtc r ;;; Done (app bs rest)
-          | Some (Err e) => Fail (PRaw e)
+          | Some (Ok bs) => rest <<- seq_bytes l fmtc r ;;; Done (app bs rest)
+          | Some (Err _) => Fail (PAsm l)            (* struct.error -> AssemblerError *)
           | None => Unsupported
           end
       end
@@ -506,9 +510,9 @@ Fixpoint resolve_sequences (its : list litem) (acc : list litem) : outcome (list
   match its with
   | [] => Done (rev acc)
   | (l, ISeq name vals) :: r =>
-      if negb (all_ints vals) then Fail (PRaw ValueError)
+      if negb (all_ints vals) then Fail (PAsm l)
       else match seq_fmt name with
-           | Some f => bs <<- seq_bytes f vals ;;; resolve_sequences r ((l, IBlob bs) :: acc)
+           | Some f => bs <<- seq_bytes l f vals ;;; resolve_sequences r ((l, IBlob bs) :: acc)
            | None => Fail (PRaw KeyError)
            end
   | x :: r => resolve_sequences r (x :: acc)
@@ -532,10 +536,10 @@ Fixpoint resolve_packs (its : list litem) (acc : list litem) : outcome (list lit
   | (l, IPack f (FInt z)) :: r =>
       match struct_pack f z with
       | Some (Ok bs) => resolve_packs r ((l, IBlob bs) :: acc)
-      | Some (Err e) => Fail (PRaw e)
+      | Some (Err _) => Fail (PAsm l)                  (* struct.error -> AssemblerError *)
       | None => Unsupported
       end
-  | (l, IPack _ _) :: r => Fail (PRaw StructError)
+  | (l, IPack _ _) :: r => Fail (PAsm l)
   | x :: r => resolve_packs r (x :: acc)
   end.
 
